@@ -26,12 +26,21 @@ def run_traced(name, src, debug=0, timeout=10.0):
     emitted = []         # (emitting rule class, code, line, column) in emission order
     res["emitted"] = emitted
 
+    orig_pos = {}        # id(token) -> position it had when lexed, for tokens a rule moved
+    moved = []           # (rule that overwrote a token position, original position, new position)
+    res["moved"] = moved
+
     def run_rules(context, rule):
         stack.append(getattr(rule, "__name__", str(rule)))
+        snap = [(t, t.pos) for t in context.tokens[: max(context.tkn_scope, 1) + 1]]
         try:
             ret, read = orig_run_rules(context, rule)
         finally:
             stack.pop()
+            for t, p in snap:
+                if t.pos != p and id(t) not in orig_pos:
+                    orig_pos[id(t)] = p
+                    moved.append([getattr(rule, "__name__", str(rule)), list(p), list(t.pos)])
         if isinstance(rule, type) and issubclass(rule, Primary) and ret is True and cur["match"] is None:
             cur["match"] = (rule.__name__, read)
         return ret, read
@@ -60,7 +69,8 @@ def run_traced(name, src, debug=0, timeout=10.0):
                 def wrap(orig):
                     def w(errno, tkn):
                         t = tkn if tkn is not None else (ctx.tokens[-1] if ctx.tokens else None)
-                        emitted.append([stack[-1] if stack else None, errno, t.pos[0] if t else None, t.pos[1] if t else None])
+                        tp = orig_pos.get(id(t), t.pos) if t else None       # the position the token was lexed at
+                        emitted.append([stack[-1] if stack else None, errno, tp[0] if t else None, tp[1] if t else None])
                         return orig(errno, tkn)
                     return w
                 setattr(ctx, meth, wrap(getattr(ctx, meth)))
